@@ -1,28 +1,6 @@
 // appended to src/runtime_scope.rs as `mod verif_kani` — C08 (depth), C01 (parameter/default indexing), C03 (capture resolution)
 use crate::runtime::RuntimeLimits;
 
-fn trip_to_function<W: 'static, R: 'static, T: 'static>(
-    _this: &crate::xexpr::XStaticFunction<W, R, T>,
-    _closure: &RuntimeScope<'_, W, R, T>,
-    _rt: RTCell<W, R, T>,
-) -> RuntimeResult<XFunction<W, R, T>> {
-    panic!("tripwire: XStaticFunction::to_function must be unreachable in this harness")
-}
-/// evaluator restricted to pre-evaluated expressions; anything else is a tripwire
-fn mini_eval<'a, W: 'static, R: 'static, T: 'static>(
-    _this: &RuntimeScope<'a, W, R, T>,
-    expr: &XExpr<W, R, T>,
-    _rt: RTCell<W, R, T>,
-    _tail: bool,
-) -> RuntimeResult<TailedEvalResult<W, R, T>>
-where
-    'a: 'a,
-{
-    match expr {
-        XExpr::Dummy(v) => Ok(TailedEvalResult::from(v.clone())),
-        _ => panic!("tripwire: eval of a non-Dummy expression must be unreachable in this harness"),
-    }
-}
 fn tag_of(c: &EvaluationCell<P, P, P>) -> Option<i64> {
     match c {
         EvaluationCell::Value(Ok(v)) => match &v.value {
@@ -54,6 +32,8 @@ fn take3<X>(n: usize, a: X, b: X, c: X) -> Vec<X> {
 #[kani::proof]
 #[kani::stub(std::collections::hash_map::RandomState::new, stub_rs)]
 #[kani::stub(crate::xexpr::XStaticFunction::to_function, trip_to_function)]
+#[kani::stub(std::rc::Rc::drop_slow, leak_rc)]
+#[kani::stub(std::sync::Arc::drop_slow, leak_arc)]
 #[kani::stub(crate::runtime_scope::RuntimeScope::eval, mini_eval)]
 #[kani::unwind(5)]
 fn c01_param_binding() {
@@ -110,6 +90,8 @@ fn sym_cell(tag: i64, max_depth: usize, rt: &Rt) -> (MCell, TemplatedEvaluationC
 #[kani::proof]
 #[kani::stub(std::collections::hash_map::RandomState::new, stub_rs)]
 #[kani::stub(crate::xexpr::XStaticFunction::to_function, trip_to_function)]
+#[kani::stub(std::rc::Rc::drop_slow, leak_rc)]
+#[kani::stub(std::sync::Arc::drop_slow, leak_arc)]
 #[kani::unwind(4)]
 fn c03_pending_capture_resolution() {
     let rt: Rt = no_limits();
@@ -174,6 +156,8 @@ fn c03_pending_capture_resolution() {
 #[kani::proof]
 #[kani::stub(std::collections::hash_map::RandomState::new, stub_rs)]
 #[kani::stub(crate::xexpr::XStaticFunction::to_function, trip_to_function)]
+#[kani::stub(std::rc::Rc::drop_slow, leak_rc)]
+#[kani::stub(std::sync::Arc::drop_slow, leak_arc)]
 #[kani::unwind(4)]
 fn c03_capture_from_spec() {
     let rt: Rt = no_limits();
